@@ -18,6 +18,10 @@ def EnzRow.ok (r : EnzRow) : Bool :=
 
 theorem enzymes_ok : enzymes.all EnzRow.ok = true := by decide +kernel
 
+/-- the generic structures over every supported enzyme are cut-aligned -/
+theorem enzymes_cutAligned : enzymes.all (fun r => cutAligned (EnzRow.geom r) r.modS && cutAligned (EnzRow.geom r) r.vecS
+    && cutAligned (EnzRow.geom r) r.modP && cutAligned (EnzRow.geom r) r.vecP) = true := by decide +kernel
+
 theorem enzymes_nonempty : 20 ≤ enzymes.length := by decide +kernel
 
 end Moclo.Tables
